@@ -186,6 +186,8 @@ pub struct Stats {
     pub sections: BTreeMap<String, (u64, u64)>,
     pub notes: Vec<String>,
     pub exhaustive_sections: Vec<String>,
+    /// samples already attributed to a closed section
+    pub section_samples: Vec<Value>,
 }
 
 impl Stats {
@@ -264,6 +266,7 @@ impl Stats {
         }
         self.notes.extend(o.notes);
         self.exhaustive_sections.extend(o.exhaustive_sections);
+        self.section_samples.extend(o.section_samples);
     }
     pub fn distinct_fps(&mut self) -> u64 {
         self.fps.sort_unstable();
@@ -277,6 +280,15 @@ impl Stats {
         e.0 += self.evaluations - mark.0;
         e.1 += d - mark.1;
         *mark = (self.evaluations, d);
+        // keep a few samples per section so every generator shows up in the evidence
+        let taken: Vec<(u64, Value)> = std::mem::take(&mut self.samples);
+        for (_, v) in taken.into_iter().take(4) {
+            let mut v = v;
+            if let Value::Object(m) = &mut v {
+                m.insert("section".into(), json!(name));
+            }
+            self.section_samples.push(v);
+        }
     }
     pub fn has_fail(&self) -> bool {
         !self.fails.is_empty()
@@ -542,7 +554,8 @@ pub fn finish(ctx: &Ctx, mut st: Stats, rep: Report, wall_s: f64) -> i32 {
     }
 
     let distinct = st.distinct_fps() + st.nontrivial_enum;
-    let samples: Vec<Value> = st.samples.iter().map(|x| x.1.clone()).collect();
+    let mut samples: Vec<Value> = st.section_samples.clone();
+    samples.extend(st.samples.iter().map(|x| x.1.clone()));
     let mut cov = Map::new();
     cov.insert("evaluations".into(), json!(st.evaluations));
     cov.insert("distinct_nontrivial".into(), json!(distinct));
